@@ -41,10 +41,26 @@ def loop_validation(ctx, res: Result, fi: FuncInfo, iter_name: str, count_term: 
         from ..guards import facts_at_end
         facts = facts_at_end(fake, norm)
     want_type = frozenset({Lit("isinstance", v, "State")})
-    want_len = frozenset({canon("==", f"len({v})", count_term)})
+    # the count may be handed in by the callers: a parameter stands for the term when every call site passes that term
+    count_terms = {count_term}
+    if orig.cls is not None:
+        hp = [a.arg for a in orig.node.args.args if a.arg not in ("self", "cls")]
+        for pi_, pn_ in enumerate(hp):
+            passed = []
+            for m_ in orig.cls.all_funcs():
+                if m_.node is orig.node:
+                    continue
+                nm_ = Normaliser(None, fn=m_.node)
+                for c_ in walk_no_nested(m_.node):
+                    if isinstance(c_, ast.Call) and isinstance(c_.func, ast.Attribute) and src(c_.func.value) == "self" and c_.func.attr == orig.name:
+                        a_ = c_.args[pi_] if pi_ < len(c_.args) else next((k.value for k in c_.keywords if k.arg == pn_), None)
+                        passed.append(nm_.term(a_) if a_ is not None else None)
+            if passed and all(t_ == count_term for t_ in passed):
+                count_terms.add(pn_)
+    want_lens = [frozenset({canon("==", f"len({v})", ct_)}) for ct_ in count_terms]
     if need_type:
         res.add(any(f == want_type for f in facts), rule, inst + ":type", fi.site(lp), fi.qualname, "non-State elements are rejected", f"elements of `{iter_name}` are not type-checked before use", construct=f"{inst}:type")
-    res.add(any(f == want_len for f in facts), rule, inst + ":length", fi.site(lp), fi.qualname, f"len(state) == {count_term} enforced", f"length of `{iter_name}` elements is not compared with {count_term} (user-visible mode count): wrong-length states are computed instead of rejected; established: " + "; ".join(" or ".join(map(str, f)) for f in facts[:5]), construct=f"{inst}:length")
+    res.add(any(f in want_lens for f in facts), rule, inst + ":length", fi.site(lp), fi.qualname, f"len(state) == {count_term} enforced", f"length of `{iter_name}` elements is not compared with {count_term} (user-visible mode count): wrong-length states are computed instead of rejected; established: " + "; ".join(" or ".join(map(str, f)) for f in facts[:5]), construct=f"{inst}:length")
 
 
 def photon_number_equal(ctx, res: Result, fi: FuncInfo, must_mention: list[str], rule="V-equal-photon-number", label=None) -> None:
